@@ -1253,6 +1253,17 @@ func main() {
 				} `json:"in"`
 			}
 			_ = json.Unmarshal(b, &kind)
+			if kind.In.Kind == "multi" {
+				var mh struct {
+					In *MultiIn `json:"in"`
+				}
+				if err := json.Unmarshal(b, &mh); err != nil || mh.In == nil {
+					fmt.Fprintln(os.Stderr, "bad case file", f, err)
+					os.Exit(2)
+				}
+				gen.Emit(runMultiCase(i, mh.In, workDir()))
+				continue
+			}
 			if kind.In.Kind == "bloom" {
 				var bh struct {
 					In *BloomIn `json:"in"`
@@ -1281,6 +1292,13 @@ func main() {
 	}
 	if len(os.Args) >= 3 && os.Args[1] == "enum" {
 		enumerate(n)
+		return
+	}
+	if len(os.Args) >= 2 && os.Args[1] == "multi" {
+		r := gen.FromEnv(2021)
+		for i := 0; i < n; i++ {
+			gen.Emit(runMultiCase(i, genMultiCase(r), workDir()))
+		}
 		return
 	}
 	if len(os.Args) >= 2 && os.Args[1] == "bloom" {
